@@ -166,8 +166,6 @@ K_OWNED = [
 K_OWNED += [
     K("owned_view_deref_total", "as_array / as_object on a still-raw container: the LazyArray / LazyObject view can be dereferenced (no unreachable!), against the contract of LazyRaw::load (kani::stub)",
       ["lazyvalue::owned::<LazyArray as Deref>::deref", "lazyvalue::owned::<LazyObject as Deref>::deref", "lazyvalue::owned::OwnedLazyValue::as_array", "lazyvalue::owned::OwnedLazyValue::as_object"]),
-    K("owned_clone_keeps_raw", "Clone for LazyPacked::Raw, cache empty or loaded: the clone is still raw with the same text and does not share the original's cache allocation",
-      ["lazyvalue::owned::LazyRaw::clone_lazyraw", "lazyvalue::owned::<LazyPacked as Clone>::clone"]),
 ]
 K_CACHE = [
     K("cache_parse_from_all_outcomes", "Inner::parse_from/clone/drop under every CAS outcome (success, lost race to a published value, spurious weak failure) and decoder outcome: returned reference valid and equal to the published decoding, cache monotone, loser released with its real layout, counts balanced, and (CBMC --memory-leak-check) every decoding allocated on any path is freed by the time the value and its clone are dropped",
@@ -202,7 +200,7 @@ K_STRBITS = [
 PROPS["C01"] = {
     "level": "proof",
     "verus": [{"unit": "recognisers", "rlimit": 200}, {"unit": "errors", "rlimit": 200}, {"unit": "number", "rlimit": 400}, {"unit": "walkers", "rlimit": 200}, {"unit": "iterators", "rlimit": 200}, {"unit": "strings", "rlimit": 200}, {"unit": "decoder", "rlimit": 300}, {"unit": "decoder_inplace", "rlimit": 300}, {"unit": "serde_access", "rlimit": 200}, {"unit": "unchecked", "rlimit": 300}, {"unit": "getmany", "rlimit": 300}, {"unit": "owned_load", "rlimit": 400}],
-    "kani": K_UNICODE + K_BLOCK[3:] + K_QUOTE[1:] + K_META[:1] + K_META[2:] + K_READER + K_OWNED[:2],
+    "kani": K_UNICODE + K_BLOCK[3:] + K_QUOTE[1:] + K_META[:1] + K_META[2:] + K_READER + K_OWNED[:2] + K_OWNED[-1:],
     "syntactic": [{"name": "recursion guard stays alive while the nested value is visited", "fn": synt.depth_guard_held},
                   {"name": "input-driven parser recursion has a depth budget", "fn": synt.parser_recursion_bounded}],
     "trusted_base": [T1, T2, T3, T4, T6, T8, VSTD, KANI,
